@@ -427,6 +427,8 @@ def check(ctx):
             continue
         seen_h.add(key)
         ok, rule, why = _heap_rule(ctx, p, f, n, base, idx, itv, kind)
+        if not ok and rule == 'container':
+            raise AnalysisBroken('C10: subscript %s[...] at %s is on a kind of object (%s) no rule of the check covers' % (base, f.loc(n), kind))
         if not ok and rule in ('vector', 'string', 'container') and p.is_new_function(f):
             raise AnalysisBroken('C10: subscript %s[...] at %s is in code the reference tree did not have and no rule classifies it' % (base, f.loc(n)))
         ctx.ob('C10.HEAP.' + rule, key, ok, '%s (index interval [%s,%s])' % (why, itv[0], itv[1]), site=f.loc(n),
